@@ -122,7 +122,7 @@ FLOORS = {
                       "retraces_decided": 55, "retrace_rows_compared": 1500, "ulpstep_ends": 6},
               "cls": {"end:past": 25, "end:near": 12, "judged:hi:past": 8,
                       "judged:hi:inside": 25, "paranoid": 30, "nonparanoid": 20,
-                      "unit:0.01": 15, "unit:1": 15, "unit:100": 15,
+                      "unit:0.01": 15, "unit:1": 15, "unit:100": 15, "guess:int-dtype": 4,
                       # both directions of the flag on a further call of the same object
                       "retrace:hi:past:flag-must-persist": 3,
                       "retrace:hi:covered:was-flagged": 3,
@@ -143,7 +143,7 @@ FLOORS = {
                  "cls": {"end:past": 600, "end:near": 300, "judged:hi:past": 200,
                          "judged:hi:inside": 600, "judged:lo:past": 10, "paranoid": 800,
                          "nonparanoid": 500, "unit:0.01": 400, "unit:1": 400,
-                         "unit:100": 400,
+                         "unit:100": 400, "guess:int-dtype": 80,
                          "retrace:hi:past:flag-must-persist": 150,
                          "retrace:lo:past:flag-must-persist": 20,
                          "retrace:hi:covered:was-flagged": 60, "retrace:lo:covered:was-flagged": 20,
@@ -1082,6 +1082,12 @@ def _case_trace(case):
     dirn = rng.normal(size=pot.fieldCount)
     dirn /= np.linalg.norm(dirn)
     guess = pot.to_code(b0 + case["guess_pert"] * fref * dirn)
+    # a user may well type the phase location as integers (Fields([0, 200])): in large units
+    # rounding moves the guess by < 1 % of the field scale, but the integer dtype must not
+    # propagate into the located minimum (repo fix f214211)
+    int_guess = bool(case["spec"]["s"] >= 50 and case["s"] % 3 == 0)
+    if int_guess:
+        guess = np.rint(np.asarray(guess, dtype=float)).astype(np.int64)
     placed = {}
     if "ulpstep" in (case["lo"]["mode"], case["hi"]["mode"]):
         (TMin, TMax), placed = _ulp_place(pot, case, t_start, dT, rTol, first, guess, (TMin, TMax))
@@ -1101,6 +1107,8 @@ def _case_trace(case):
     cls = [f"end:{m}" for m in (mlo, mhi)] + [f"fam:{case['spec']['family']}:{phase}",
                                               f"unit:{case['spec']['s']:g}",
                                               "paranoid" if case["paranoid"] else "nonparanoid"]
+    if int_guess:
+        cls.append("guess:int-dtype")
     try:
         try:
             fe.tracePhase(TMin, TMax, dT, rTol=rTol, paranoid=case["paranoid"],
